@@ -51,12 +51,16 @@ static struct {
 	int nthreads;
 	int debug_on;
 	int churn;
+	int wait_note[RT_MAXT];  /* 1 + index of the cancel note of a thread's current wait, 0 = none */
+	int note_done[NNOTE];    /* an nsync_note_notify on the note has RETURNED */
+	int note1_child;         /* note[1] is a child of note[0] */
+	int qepi;                /* Mode B: every epilogue first waits for quiescence and checks that every sleeper sleeps legitimately */
 	int wait_var[RT_MAXT];   /* index of the variable a thread's current nsync_mu_wait depends on, -1 = none, -2 = NULL condition */
 	int cv_foreign[NCV];   /* this round, waits on cv[j] pass harness lock/unlock callbacks (a foreign lock to nsync) */
 } S;
 
 enum { CV_ACQ = 0, CV_ACQ_SLEPT, CV_TRY_OK, CV_TRY_FAIL, CV_CVWAIT_0, CV_CVWAIT_TO, CV_CVWAIT_CANCEL, CV_MUWAIT_0, CV_MUWAIT_TO, CV_MUWAIT_CANCEL,
-       CV_WAITN_READY, CV_WAITN_TO, CV_WAIT_SLEPT, CV_COND_EVALS, CV_DEBUG_CALLS, CV_NOWAKE, CV_SECTIONS, CV_UNTIMED, CV_CHURN, CV_IDLE };
+       CV_WAITN_READY, CV_WAITN_TO, CV_WAIT_SLEPT, CV_COND_EVALS, CV_DEBUG_CALLS, CV_NOWAKE, CV_SECTIONS, CV_UNTIMED, CV_CHURN, CV_IDLE, CV_QEPI };
 
 /* ---- oracles ----------------------------------------------------------------------- */
 static void enter (int writer, const char *how) {
@@ -143,7 +147,7 @@ static int do_act (int tid, const struct act *a, int held, int writer) {
 	case A_POINT: rt_point ("section"); break;
 	case A_SIGNAL: RT_OP ("nsync_cv_signal", nsync_cv_signal (&S.cv[a->k % NCV])); break;
 	case A_BCAST: RT_OP ("nsync_cv_broadcast", nsync_cv_broadcast (&S.cv[a->k % NCV])); break;
-	case A_NOTIFY: RT_OP ("nsync_note_notify", nsync_note_notify (S.note[a->k % NNOTE])); break;
+	case A_NOTIFY: RT_OP ("nsync_note_notify", nsync_note_notify (S.note[a->k % NNOTE])); sc_set (&S.note_done[a->k % NNOTE], 1); break;
 	case A_DEBUG: do_debug (); break;
 	case A_CVWAIT: {
 		nsync_cv *cv = &S.cv[a->k % NCV];
@@ -152,6 +156,7 @@ static int do_act (int tid, const struct act *a, int held, int writer) {
 		if (!held) break;
 		if (!a->timed && note == NULL) { if (S.final_) break; rt_cover (CV_UNTIMED); }
 		dl = mk_deadline (a);
+		sc_set (&S.wait_note[tid], a->note);
 		leave (writer);
 		/* one cv <-> one lock: a cv is used either with the nsync_mu natively or, by every
 		   waiter of the round, through the generic interface with harness callbacks
@@ -168,6 +173,7 @@ static int do_act (int tid, const struct act *a, int held, int writer) {
 		}
 		if (rt_op_sleeps ()) { rt_cover (CV_WAIT_SLEPT); rt_mark_nontrivial (); }
 		enter (writer, api);
+		sc_set (&S.wait_note[tid], 0);
 		check_reason (api, res, a->timed, dl, note);
 		rt_cover (res == 0 ? CV_CVWAIT_0 : res == ETIMEDOUT ? CV_CVWAIT_TO : CV_CVWAIT_CANCEL);
 		rt_ev (0x100u | (uint32_t) (res & 0xff));
@@ -186,12 +192,14 @@ static int do_act (int tid, const struct act *a, int held, int writer) {
 		}
 		dl = mk_deadline (a);
 		sc_set (&S.wait_var[tid], f == NULL ? -2 : a->k);
+		sc_set (&S.wait_note[tid], a->note);
 		leave (writer);
 		if (!a->timed && note == NULL) { api = "nsync_mu_wait"; RT_OP (api, nsync_mu_wait (&S.mu, f, arg, eq)); }
 		else { api = "nsync_mu_wait_with_deadline"; RT_OP_DLS (api, a->timed ? rt_ts_ns (dl) : 0, note == NULL, res = nsync_mu_wait_with_deadline (&S.mu, f, arg, eq, dl, note)); }
 		if (rt_op_sleeps ()) { rt_cover (CV_WAIT_SLEPT); rt_mark_nontrivial (); }
 		enter (writer, api);
 		sc_set (&S.wait_var[tid], -1);
+		sc_set (&S.wait_note[tid], 0);
 		check_reason (api, res, a->timed, dl, note);
 		now_true = (f == NULL) || S.v[a->k] != 0;
 		if ((res == 0) != (now_true != 0)) rt_violation ("muwait-result", api, "%s returned %d but its condition is %s at return", api, res, now_true ? "true" : "false");
@@ -209,10 +217,12 @@ static int do_act (int tid, const struct act *a, int held, int writer) {
 		if (a->note) { w[n].v = S.note[a->note - 1]; w[n].funcs = &nsync_note_waitable_funcs; n++; }
 		for (i = 0; i < n; i++) pw[i] = &w[i];
 		dl = mk_deadline (a);
+		sc_set (&S.wait_note[tid], a->note);
 		leave (writer);
 		RT_OP_DLS ("nsync_wait_n", a->timed ? rt_ts_ns (dl) : 0, a->note == 0, res = nsync_wait_n (&S.mu, writer ? &my_lock : &my_rlock, writer ? &my_unlock : &my_runlock, dl, n, pw));
 		if (rt_op_sleeps ()) { rt_cover (CV_WAIT_SLEPT); rt_mark_nontrivial (); }
 		enter (writer, "nsync_wait_n");
+		sc_set (&S.wait_note[tid], 0);
 		if (res < 0 || res > n) rt_violation ("waitn-result", "range", "nsync_wait_n returned %d for %d objects", res, n);
 		if (res == n) {
 			if (!a->timed) rt_violation ("return-reason", "nsync_wait_n", "nsync_wait_n returned count although no deadline was given");
@@ -260,8 +270,10 @@ static void run_section (int tid, const struct sect *s) {
 	}
 }
 
+static void legit_sleep_check (const char *when);
 static void epilogue (void) {
 	int i;
+	if (S.qepi) { rt_wait_quiescent (); rt_cover (CV_QEPI); legit_sleep_check ("quiescent instant before a thread's epilogue"); }
 	/* make every wait terminate */
 	RT_OP ("nsync_mu_lock", nsync_mu_lock (&S.mu));
 	enter (1, "nsync_mu_lock");
@@ -270,7 +282,7 @@ static void epilogue (void) {
 	leave (1);
 	RT_OP ("nsync_mu_unlock", nsync_mu_unlock (&S.mu));
 	for (i = 0; i < NCV; i++) RT_OP ("nsync_cv_broadcast", nsync_cv_broadcast (&S.cv[i]));
-	for (i = 0; i < NNOTE; i++) RT_OP ("nsync_note_notify", nsync_note_notify (S.note[i]));
+	for (i = 0; i < NNOTE; i++) { RT_OP ("nsync_note_notify", nsync_note_notify (S.note[i])); sc_set (&S.note_done[i], 1); }
 }
 
 /* thread churn (--param churn=1): the sections of a program are run by a succession of
@@ -304,29 +316,36 @@ static void body (int tid) {
 	epilogue ();
 }
 
-/* Mode B idle oracle: nothing is runnable, only timers are pending.  At this instant
+/* Mode B oracle at instants where NOTHING is runnable (idle: only timers are pending; quiescent: not even those).
+   Every sleeping thread must be legitimately asleep at such an instant:
      - a thread asleep in a lock acquisition on S.mu while the word shows no holder and no spinlock sleeps on a free
-       mutex with nobody responsible for waking it (C02), and
+       mutex with nobody responsible for waking it (C02);
      - a thread asleep in nsync_mu_wait whose condition is true while the mutex is free was not woken by the release that
-       followed the change (C06) -- even if its own deadline would rescue it later.  */
-static void idle_check (void) {
+       followed the change (C06) -- even if its own deadline would rescue it later;
+     - a thread asleep inside a wait whose cancel note has been notified (nsync_note_notify on it or its parent has
+       RETURNED) "needs no further wake-up" (C05) -- even if a later signal, condition change or deadline would rescue it.  */
+static int note_is_done (int n) { return (sc_get (&S.note_done[n]) || (n == 1 && S.note1_child && sc_get (&S.note_done[0]))); }
+static void legit_sleep_check (const char *when) {
 	uint32_t word = sc_word (&S.mu.word);
-	int t;
-	rt_cover (CV_IDLE);
-	if ((word & (SC_MU_ANY_LOCK | 2u)) != 0) return;
+	int t, mu_free = ((word & (SC_MU_ANY_LOCK | 2u)) == 0);
 	for (t = 0; t < S.nthreads; t++) {
-		const char *at;
+		const char *at; int n, on_mu;
 		if (!rt_thread_blocked (t)) continue;
 		at = rt_thread_at (t);
-		if (!rt_thread_timed (t) && !strcmp (at, "nsync_mu_lock_slow_") && rt_thread_lock_addr (t) == (const volatile void *) &S.mu.word)
-			rt_violation ("asleep-on-free-mutex", rt_thread_op (t), "nothing can run (only deadlines are pending), the mutex word %#x shows no holder, yet thread %d is asleep in %s waiting for it", word, t, rt_thread_op (t));
-		if (!strcmp (at, "nsync_mu_wait_with_deadline")) {
+		on_mu = (!strcmp (at, "nsync_mu_lock_slow_") && rt_thread_lock_addr (t) == (const volatile void *) &S.mu.word);
+		if (mu_free && !rt_thread_timed (t) && on_mu)
+			rt_violation ("asleep-on-free-mutex", rt_thread_op (t), "%s: nothing can run, the mutex word %#x shows no holder, yet thread %d is asleep in %s waiting for it", when, word, t, rt_thread_op (t));
+		if (mu_free && !strcmp (at, "nsync_mu_wait_with_deadline")) {
 			int k = sc_get (&S.wait_var[t]);
 			if (k >= 0 && S.v[k] != 0)
-				rt_violation ("cond-true-asleep", rt_thread_op (t), "nothing can run (only deadlines are pending), the mutex is free (word %#x) and v[%d] is true, yet thread %d is still asleep in %s on that condition", word, k, t, rt_thread_op (t));
+				rt_violation ("cond-true-asleep", rt_thread_op (t), "%s: nothing can run, the mutex is free (word %#x) and v[%d] is true, yet thread %d is still asleep in %s on that condition", when, word, k, t, rt_thread_op (t));
 		}
+		n = sc_get (&S.wait_note[t]);
+		if (n > 0 && note_is_done (n - 1) && strcmp (at, "nsync_mu_lock_slow_") != 0)
+			rt_violation ("asleep-although-cancelled", rt_thread_op (t), "%s: nothing can run, nsync_note_notify on the cancel note of thread %d's %s (or on its parent) has returned, yet the thread is still asleep inside the wait (last step in %s)", when, t, rt_thread_op (t), at);
 	}
 }
+static void idle_check (void) { rt_cover (CV_IDLE); legit_sleep_check ("idle instant (only deadlines are pending)"); }
 
 /* ---- generation -------------------------------------------------------------------- */
 static int pick_dl (void) {
@@ -372,11 +391,14 @@ static int setup (uint64_t seed) {
 	S.debug_on = (int) rt_param ("debug", 0);
 	S.churn = (int) rt_param ("churn", 0);
 	S.note[0] = nsync_note_new (NULL, nsync_time_no_deadline);
-	S.note[1] = rt_rand_n (2) ? nsync_note_new (NULL, rt_deadline_in (pick_dl ())) : nsync_note_new (S.note[0], nsync_time_no_deadline);
+	S.note1_child = !rt_rand_n (2);
+	S.note[1] = !S.note1_child ? nsync_note_new (NULL, rt_deadline_in (pick_dl ())) : nsync_note_new (S.note[0], nsync_time_no_deadline);
+	for (i = 0; i < NNOTE; i++) S.note_done[i] = 0;
 	S.ctr = nsync_counter_new (1);
 	for (i = 0; i < NV; i++) S.v[i] = (int) rt_rand_n (2);
 	for (i = 0; i < NCV; i++) S.cv_foreign[i] = (rt_rand_n (4) == 0);
-	for (i = 0; i < RT_MAXT; i++) S.wait_var[i] = -1;
+	for (i = 0; i < RT_MAXT; i++) { S.wait_var[i] = -1; S.wait_note[i] = 0; }
+	S.qepi = rt_mode_b () && rt_rand_n (2);
 	S.final_ = 0; S.W = 0; S.R = 0; S.ca = 0; S.cb = 0;
 	{ int maxt = (int) rt_param ("maxthreads", rt_mode_b () ? 4 : 6);
 	  if (maxt > rt_scen.max_threads) maxt = rt_scen.max_threads;
@@ -445,7 +467,7 @@ static void pinit (void) {
 	rt_cover_name (CV_MUWAIT_0, "muwait_true"); rt_cover_name (CV_MUWAIT_TO, "muwait_timedout"); rt_cover_name (CV_MUWAIT_CANCEL, "muwait_cancelled");
 	rt_cover_name (CV_WAITN_READY, "waitn_ready"); rt_cover_name (CV_WAITN_TO, "waitn_timedout"); rt_cover_name (CV_WAIT_SLEPT, "waits_that_slept");
 	rt_cover_name (CV_COND_EVALS, "condition_evaluations"); rt_cover_name (CV_DEBUG_CALLS, "debug_calls"); rt_cover_name (CV_NOWAKE, "unlock_without_wakeup");
-	rt_cover_name (CV_SECTIONS, "sections"); rt_cover_name (CV_UNTIMED, "untimed_waits"); rt_cover_name (CV_CHURN, "short_lived_threads"); rt_cover_name (CV_IDLE, "idle_instants_checked");
+	rt_cover_name (CV_SECTIONS, "sections"); rt_cover_name (CV_UNTIMED, "untimed_waits"); rt_cover_name (CV_CHURN, "short_lived_threads"); rt_cover_name (CV_IDLE, "idle_instants_checked"); rt_cover_name (CV_QEPI, "quiescent_instants_checked_before_an_epilogue");
 }
 
 rt_scenario rt_scen = { "mu_mix", "C01", 6, &pinit, &setup, &body, &check, &teardown, &describe, NULL, &dump_state, NULL, &idle_check };
